@@ -233,6 +233,9 @@ func RunCell(c *Cell) (res *Result) {
 		}
 		return cfg
 	}
+	var testRC *plugin.ReattachConfig
+	var testCancel context.CancelFunc
+	var closeCh chan struct{}
 	var clients []*plugin.Client
 	var stores []kv.Store
 	var protos []plugin.ClientProtocol
@@ -283,6 +286,9 @@ func RunCell(c *Cell) (res *Result) {
 			if err == nil {
 				res.Protocol = string(clients[cur()].Protocol())
 				res.Version = clients[cur()].NegotiatedVersion()
+				if rc := clients[cur()].ReattachConfig(); rc != nil && rc.Pid > 0 && res.PluginPid == 0 {
+					res.PluginPid = rc.Pid
+				}
 			}
 			record(op, t0, err, "")
 		case "client":
@@ -309,8 +315,11 @@ func RunCell(c *Cell) (res *Result) {
 			record(op, t0, err, "")
 		case "set", "get", "callback", "revcallback", "big", "print":
 			i := cur()
-			if j, e := strconv.Atoi(strings.TrimPrefix(arg, "@")); e == nil && strings.HasPrefix(arg, "@") {
-				i = j
+			if v, at, ok := strings.Cut(arg, "@"); ok {
+				arg = v
+				if j, e := strconv.Atoi(at); e == nil && j < len(stores) {
+					i = j
+				}
 			}
 			st := stores[i]
 			if st == nil {
@@ -376,6 +385,67 @@ func RunCell(c *Cell) (res *Result) {
 			clients = append(clients, plugin.NewClient(cfg))
 			stores, protos = append(stores, nil), append(protos, nil)
 			record(op, t0, nil, string(rc.Protocol))
+		case "testserve": // an in-process plugin.Serve in test mode (arg = protocol)
+			ctx, cancel := context.WithCancel(context.Background())
+			testCancel = cancel
+			rcCh := make(chan *plugin.ReattachConfig, 1)
+			closeCh = make(chan struct{})
+			impl := &kv.Impl{}
+			sc := &plugin.ServeConfig{
+				HandshakeConfig: plugin.HandshakeConfig{MagicCookieKey: cookieKey, MagicCookieValue: cookieVal, ProtocolVersion: 1},
+				Test:            &plugin.ServeTestConfig{Context: ctx, ReattachConfigCh: rcCh, CloseCh: closeCh},
+				Logger:          hclog.NewNullLogger(),
+			}
+			if arg == "grpc" {
+				sc.Plugins = plugin.PluginSet{"kv": &kv.GPlugin{Impl: impl}}
+				sc.GRPCServer = plugin.DefaultGRPCServer
+			} else {
+				sc.Plugins = plugin.PluginSet{"kv": &kv.Plugin{Impl: impl}}
+			}
+			go plugin.Serve(sc)
+			select {
+			case testRC = <-rcCh:
+				record(op, t0, nil, string(testRC.Protocol))
+			case <-time.After(10 * time.Second):
+				record(op, t0, errors.New("no reattach config from test-mode Serve"), "")
+			}
+		case "treattach": // a new client from the test-mode reattach config
+			if testRC == nil {
+				record(op, t0, errors.New("no test reattach config"), "")
+				break
+			}
+			cfg := mkConfig()
+			cfg.Reattach = testRC
+			clients = append(clients, plugin.NewClient(cfg))
+			stores, protos = append(stores, nil), append(protos, nil)
+			record(op, t0, nil, "")
+		case "cancel":
+			if testCancel != nil {
+				testCancel()
+			}
+			select {
+			case <-closeCh:
+				record(op, t0, nil, "closed")
+			case <-time.After(10 * time.Second):
+				record(op, t0, errors.New("CloseCh not closed 10 s after the context was cancelled"), "")
+			}
+		case "closed?":
+			select {
+			case <-closeCh:
+				record(op, t0, nil, "closed")
+			default:
+				record(op, t0, nil, "serving")
+			}
+		case "pidgone": // wait up to 10 s for the plugin pid to disappear
+			gone := false
+			for i := 0; i < 100; i++ {
+				if res.PluginPid > 0 && syscall.Kill(res.PluginPid, 0) != nil {
+					gone = true
+					break
+				}
+				time.Sleep(100 * time.Millisecond)
+			}
+			record(op, t0, nil, strconv.FormatBool(gone))
 		case "sleep":
 			ms, _ := strconv.Atoi(arg)
 			time.Sleep(time.Duration(ms) * time.Millisecond)
